@@ -27,10 +27,10 @@ def mon_c01(cfg, eff, recs):
             if r['out'][1] != want:
                 hits.append({'prop': 'C01', 'step': i,
                              'what': 'call f%r returned %r, the function returns %r'
-                                     % (realcall(r['op'][1]), r['out'][1], want)})
+                                     % (realcall(r['op'][1], cfg), r['out'][1], want)})
             rec = r['extra'].get('received')
             if rec is not None:
-                ar, kwd = realcall(r['op'][1])
+                ar, kwd = realcall(r['op'][1], cfg)
                 x = ar[0] if ar else kwd.get('x')
                 y = ar[1] if len(ar) > 1 else kwd.get('y', 0)
                 if repr((x, y)) != repr(rec) and not (x is rec[0]):
@@ -212,10 +212,10 @@ def mon_c16(cfg, eff, recs):
             want = vcode(g_cfg(cfg, a))
             if r['out'][1] != want:
                 hits.append({'prop': 'C16', 'step': i,
-                             'what': 'safe fallback for %r returned %r, the function returns %r' % (realcall(a), r['out'][1], want)})
+                             'what': 'safe fallback for %r returned %r, the function returns %r' % (realcall(a, cfg), r['out'][1], want)})
             rec = r['extra'].get('received')
             if rec is not None:
-                ar, kwd = realcall(a)
+                ar, kwd = realcall(a, cfg)
                 x = ar[0] if ar else kwd.get('x')
                 if repr(x) != repr(rec[0]) and x is not rec[0]:
                     hits.append({'prop': 'C16', 'step': i,
